@@ -9,6 +9,7 @@
 //	hist      generated data sets x placements of flush/compaction/reopen x generated conditions and group-bys
 //	big       one metric with more series than one (thorough: two) roaring containers hold
 //	conc      queries while flushes / compactions / writes run freely
+//	unmap     a group-by query held between shard scan and grouping while the forward family is compacted
 //	directed  fixed scenarios (single-star like, atoms with equal Rewrite text, unknown tag key, a query parked
 //	          between its snapshot and its memory read while a flush completes)
 //
@@ -65,12 +66,13 @@ func main() {
 	for i := 0; i < c.Pick(1, 4); i++ {
 		jobs = append(jobs, job{"big", i})
 	}
-	for i := 0; i < c.Pick(4, 40); i++ {
+	for i := 0; i < c.Pick(8, 80); i++ {
 		jobs = append(jobs, job{"conc", i})
 	}
 	for i := 0; i < c.Pick(1, 3); i++ {
 		jobs = append(jobs, job{"directed", i})
 	}
+	jobs = append(jobs, job{"unmap", 0})
 	if only := os.Getenv("C10_ONLY_KIND"); only != "" {
 		var js []job
 		for _, j := range jobs {
@@ -82,7 +84,7 @@ func main() {
 	}
 	// long jobs first
 	ordered := make([]int, 0, len(jobs))
-	for _, k := range []string{"big", "conc", "directed", "hist"} {
+	for _, k := range []string{"big", "conc", "directed", "unmap", "hist"} {
 		for i, j := range jobs {
 			if j.kind == k {
 				ordered = append(ordered, i)
@@ -117,7 +119,7 @@ func main() {
 		case cr.TimedOut:
 			died[i] = "watchdog\n" + tail(cr.Output, 3000)
 		case err != nil || cr.ExitCode != 0:
-			died[i] = fmt.Sprintf("exit=%d err=%v\n%s", cr.ExitCode, err, tail(cr.Output, 8000))
+			died[i] = fmt.Sprintf("exit=%d err=%v\n%s", cr.ExitCode, err, crashHead(out, cr.Output))
 		default:
 			results[i] = r
 		}
@@ -134,7 +136,13 @@ func main() {
 				c.Inconclusive("%s %d: child watchdog fired", j.kind, j.idx)
 				continue
 			}
-			if frame := anchoredFrame(msg); frame != "" {
+			if fn := faultFrame(msg); fn != "" {
+				// a query result (posting-list bitmap, grouping scanner) still points into a mapped table file whose kv
+				// snapshot the lookup has already closed; a compaction made the file obsolete and it was unmapped
+				c.Count("children_died_reading_an_unmapped_table_file", 1)
+				c.Violation("C10/use-after-unmap/"+fn, fmt.Sprintf("%s %d: the node died with SIGSEGV reading an unmapped table file in %s: %s", j.kind, j.idx, fn, tail(msg, 800)),
+					map[string]interface{}{"kind": j.kind, "index": j.idx, "output": msg})
+			} else if frame := anchoredFrame(msg); frame != "" {
 				c.Violation("C10/process-died/"+frame, fmt.Sprintf("%s %d: child died in anchored code: %s", j.kind, j.idx, tail(msg, 1500)),
 					map[string]interface{}{"kind": j.kind, "index": j.idx, "output": tail(msg, 8000)})
 			} else {
@@ -183,6 +191,14 @@ func finishChecks(c *core.Ctx) {
 		"meta_families_compacted_with_2+_files":               3,
 		"op.RO":                                               3,
 		"op.PFI":                                              3,
+		"queries_parked_between_snapshot_and_memory_read":     5,
+		"flushes_completed_inside_a_parked_query":             5,
+		"metrics_with_series_ids_beyond_65535":                1,
+		"concurrent_queries_with_a_nonempty_lower_bound":      200,
+		"conc_flush_cycles":                                   50,
+	}
+	if c.Counter("grouping_stages_parked_after_the_shard_scan") < 1 && c.Counter("children_died_reading_an_unmapped_table_file") < 1 {
+		c.Inconclusive("the unmap case neither parked a grouping stage nor died in the grouping scan")
 	}
 	for k, min := range need {
 		if c.Counter(k) < min {
@@ -211,11 +227,35 @@ func runCaseChild() {
 		res = runConcCase(idx, dir, tier, seed)
 	case "directed":
 		res = runDirectedCase(idx, dir, tier, seed)
+	case "unmap":
+		res = runUnmapCase(idx, dir, tier, seed)
 	default:
 		fmt.Println("unknown case kind", kind)
 		os.Exit(4)
 	}
 	writeResult(dir, res)
+}
+
+// crashHead returns the part of a child's log that starts at the Go crash header (panic / fatal error) and holds
+// the crashing goroutine's stack; the tail of the output if there is no such header.
+func crashHead(logFile, fallback string) string {
+	data, err := os.ReadFile(logFile)
+	if err != nil {
+		return tail(fallback, 8000)
+	}
+	s := string(data)
+	i := strings.Index(s, "\nfatal error:")
+	if j := strings.Index(s, "\npanic:"); j >= 0 && (i < 0 || j < i) {
+		i = j
+	}
+	if i < 0 {
+		return tail(s, 8000)
+	}
+	s = s[i+1:]
+	if len(s) > 8000 {
+		s = s[:8000]
+	}
+	return s
 }
 
 func tail(s string, n int) string {
@@ -231,6 +271,36 @@ var anchoredFiles = []string{
 	"index/kv_store.go", "index/metric_index_database.go", "index/model/trie_bucket.go", "index/v1/forward_reader.go",
 	"index/v1/inverted_merger.go", "index/v1/forward_merger.go", "index/v1/index_kv_merger.go", "flow/grouping.go",
 	"index/grouping.go", "index/metric_meta_database.go", "pkg/imap/int_map.go",
+}
+
+// faultFrame returns, for a child that died with a SIGSEGV fault, the first lindb function of the crashing goroutine
+// ("" if the death is something else).
+func faultFrame(out string) string {
+	if !strings.Contains(out, "fatal error: fault") || !strings.Contains(out, "SIGSEGV") {
+		return ""
+	}
+	i := strings.Index(out, "\ngoroutine ")
+	if i < 0 {
+		return ""
+	}
+	stack := out[i+1:]
+	if e := strings.Index(stack, "\n\n"); e >= 0 {
+		stack = stack[:e]
+	}
+	for _, l := range strings.Split(stack, "\n") {
+		if strings.HasPrefix(l, "github.com/lindb/lindb/") && !strings.Contains(l, "/verif/") {
+			fn := strings.TrimPrefix(l, "github.com/lindb/lindb/")
+			if p := strings.Index(fn, "("); p >= 0 {
+				// pkg.(*type).method(args) -> keep up to the argument list
+				if q := strings.LastIndex(fn, "("); q > p {
+					fn = fn[:q]
+				}
+			}
+			fn = strings.NewReplacer("(*", "", ")", "", "/", "_").Replace(fn)
+			return fn
+		}
+	}
+	return ""
 }
 
 // anchoredFrame returns the anchored file of the first goroutine's stack (the crashing one) in a Go crash dump.
